@@ -27,6 +27,7 @@ import (
 	"os"
 	"os/exec"
 	"path/filepath"
+	"sort"
 	"strings"
 	"sync"
 
@@ -79,7 +80,7 @@ func (c *c13) Assumptions() []string {
 }
 
 func (c *c13) ProbeNames() []string {
-	return []string{"hist_pair_repeated_after_other_compile", "hist_recompiled_same_source", "hist_old_handle_run_after_recompile", "sess_def_referenced_from_two_commands", "sess_def_referenced_twice_in_command", "sess_nested_definition", "sess_subroutine_reading_compared", "sess_or_in_body_referenced_twice", "sess_reference_inside_loop_min2", "sess_runfiles_concatenation_compared"}
+	return []string{"hist_pair_repeated_after_other_compile", "hist_recompiled_same_source", "hist_old_handle_run_after_recompile", "sess_def_referenced_from_two_commands", "sess_def_referenced_twice_in_command", "sess_nested_definition", "sess_subroutine_reading_compared", "sess_or_in_body_referenced_twice", "sess_reference_inside_loop_min2", "sess_runfiles_concatenation_compared", "sess_name_redefined", "sess_wide_many_commands_64k_text"}
 }
 
 func (c *c13) SweepPrefix(string, uint64) []uint64 { return nil }
@@ -110,6 +111,18 @@ func (c *c13) soloref(item int, rseed int64, mseed uint64) c13ref {
 	r.Steps = simrt.Steps
 	simrt.Stop()
 	return r
+}
+
+func refAborted(r c13ref) bool {
+	if r.Compile.Class == "abort" {
+		return true
+	}
+	for _, o := range r.Runs {
+		if o.Class == "abort" {
+			return true
+		}
+	}
+	return false
 }
 
 func sameRef(a, b c13ref) bool {
@@ -244,6 +257,9 @@ func (c *c13) runHistory(ctx *RunCtx) *RunResult {
 		items[i] = t.Draw(len(c.pool))
 		d.Sources = append(d.Sources, trunc(c.pool[items[i]].Src, 120))
 		budget += 200 * c.refs[items[i]].Steps
+		if refAborted(c.refs[items[i]]) {
+			continue // the reference itself ran out of budget: no oracle for this item
+		}
 		if !c.refs[items[i]].Stable {
 			addV("solo-stability", "solo-unstable", fmt.Sprintf("the same call gives different results in two fresh processes that differ only in the rand/map-order seed: src=%q: %s", trunc(c.pool[items[i]].Src, 100), c.refs[items[i]].Other))
 		}
@@ -283,7 +299,7 @@ func (c *c13) runHistory(ctx *RunCtx) *RunResult {
 			evh = mix(evh, hashStr(oc.String()))
 			opsig = append(opsig, mix(1, uint64(item)))
 			want := c.refs[item].Compile
-			if !c.refs[item].Stable {
+			if !c.refs[item].Stable || refAborted(c.refs[item]) {
 				continue
 			}
 			if !oc.Same(want) {
@@ -316,7 +332,7 @@ func (c *c13) runHistory(ctx *RunCtx) *RunResult {
 		d.Ops = append(d.Ops, c13hop{Op: "run", Src: h.slot, Item: item, Handle: hi, Var: variant, Out: trunc(o.String(), 80)})
 		evh = mix(evh, hashStr(o.String()))
 		opsig = append(opsig, mix(2, uint64(item), uint64(variant), uint64(hi)))
-		if !c.refs[item].Stable || variant >= len(c.refs[item].Runs) {
+		if !c.refs[item].Stable || refAborted(c.refs[item]) || variant >= len(c.refs[item].Runs) {
 			continue
 		}
 		want := c.refs[item].Runs[variant]
@@ -339,9 +355,10 @@ func (c *c13) runHistory(ctx *RunCtx) *RunResult {
 // ---------------- sessions ----------------
 
 type sessDef struct {
-	Name string
-	Body string   // body text with references to earlier definitions by name
-	Refs []string // names referenced directly
+	Name     string
+	Body     string   // body text with references to earlier definitions by name
+	Refs     []string // names referenced directly
+	Expanded string   // body with every reference written out, as bound when this definition was made
 }
 
 var sessLits = []string{"'a'", "'b'", "'ab'", "'c'", "'ba'", "'1'", "' '"}
@@ -538,40 +555,57 @@ func (c *c13) runSession(ctx *RunCtx) *RunResult {
 	ndefs := t.Range(1, 3)
 	var defs []sessDef
 	orBody := map[string]bool{}
-	for i := 0; i < ndefs; i++ {
+	latest := map[string]sessDef{}
+	redefined := false
+	// expandBody writes out the references of a body as they are bound right now
+	expandBody := func(b string) string {
+		for i := 3; i >= 1; i-- {
+			n := fmt.Sprintf("p%d", i)
+			if strings.Contains(b, n) {
+				b = strings.ReplaceAll(b, n, "("+latest[n].Expanded+")")
+			}
+		}
+		return b
+	}
+	addDef := func(name string) {
 		used := map[string]bool{}
 		hasOr := false
-		body := genBody(t, 2, defs, used, &hasOr)
-		d := sessDef{Name: fmt.Sprintf("p%d", i+1), Body: body}
+		// a body may only refer to names that are bound at this point (other than its own)
+		var visible []sessDef
+		for _, dd := range defs {
+			if dd.Name != name && latest[dd.Name].Body == dd.Body {
+				visible = append(visible, dd)
+			}
+		}
+		body := genBody(t, 2, visible, used, &hasOr)
+		d := sessDef{Name: name, Body: body}
 		for n := range used {
 			d.Refs = append(d.Refs, n)
 			if orBody[n] {
 				hasOr = true
 			}
 		}
+		sort.Strings(d.Refs)
 		if len(used) > 0 {
 			ctx.Count("sess_nested_definition", 1)
 		}
+		d.Expanded = expandBody(body)
 		orBody[d.Name] = hasOr
+		latest[name] = d
 		defs = append(defs, d)
 	}
-	byName := map[string]sessDef{}
-	for _, d := range defs {
-		byName[d.Name] = d
+	for i := 0; i < ndefs; i++ {
+		addDef(fmt.Sprintf("p%d", i+1))
 	}
-	// full textual expansion of a definition
-	var expand func(name string) string
-	expand = func(name string) string {
-		b := byName[name].Body
-		// replace identifiers pN by their expansion (names are p1..p3, bodies never contain other identifiers starting with p+digit)
-		for i := len(defs); i >= 1; i-- {
-			n := fmt.Sprintf("p%d", i)
-			if n != name && strings.Contains(b, n) {
-				b = strings.ReplaceAll(b, n, "("+expand(n)+")")
-			}
-		}
-		return b
+	// now and then an earlier name is bound again after other definitions used it:
+	// they keep the body they were made with, later references see the new one
+	if ndefs >= 2 && t.Draw(6) == 1 {
+		addDef(fmt.Sprintf("p%d", 1+t.Draw(ndefs-1)))
+		redefined = true
+		ctx.Count("sess_name_redefined", 1)
 	}
+	byName := latest
+	expand := func(name string) string { return latest[name].Expanded }
 	// definitions needed (transitively) by a set of names, in order
 	needed := func(names []string) string {
 		need := map[string]bool{}
@@ -590,13 +624,24 @@ func (c *c13) runSession(ctx *RunCtx) *RunResult {
 		}
 		var sb strings.Builder
 		for _, d := range defs {
-			if need[d.Name] {
+			if need[d.Name] || redefined {
 				sb.WriteString("set " + d.Name + " to pattern " + d.Body + "\n")
 			}
 		}
 		return sb.String()
 	}
 	ncmds := t.Range(1, 3)
+	// now and then a wide session: more commands than any internal worker pool has lanes,
+	// on a text beyond 64 KiB whose interesting part starts right at that boundary
+	wideOdds := 6000
+	if c.env.Tier == "thorough" {
+		wideOdds = 2000
+	}
+	wide := t.Draw(wideOdds) == 1
+	if wide {
+		ncmds = t.Range(9, 12)
+		ctx.Count("sess_wide_many_commands_64k_text", 1)
+	}
 	var cmds []sessCmd
 	refCount := map[string]int{}
 	refCmds := map[string]map[int]bool{}
@@ -636,6 +681,10 @@ func (c *c13) runSession(ctx *RunCtx) *RunResult {
 		tb[i] = "abc1 ab"[t.Draw(7)]
 	}
 	text := string(tb)
+	if wide {
+		// 'z' occurs in no literal of the generator: nothing can match before the boundary
+		text = strings.Repeat("z", 65536-t.Range(0, 3)) + text + "ab ab1"
+	}
 	randSeed := int64(t.Draw(1 << 30))
 	mapSeed := uint64(t.Draw(1 << 30))
 	useFiles := ncmds >= 2 && t.Draw(3) == 1
@@ -676,7 +725,10 @@ func (c *c13) runSession(ctx *RunCtx) *RunResult {
 
 	simrt.Reset(1, soloPlan(t, treeSpawnsCached(c.env), 20000), mapSeed)
 	simrt.Solo()
-	const budget = 400000
+	budget := uint64(400000)
+	if wide {
+		budget = 400000 + 400*uint64(len(text))*uint64(ncmds)
+	}
 	eval := func(src string) Outcome {
 		rand.Seed(randSeed)
 		randSeed++
@@ -690,6 +742,13 @@ func (c *c13) runSession(ctx *RunCtx) *RunResult {
 	aborted := oWhole.Class == "abort"
 	for j := range cmds {
 		oAlone = append(oAlone, eval(alone[j]))
+		if wide && j >= 3 {
+			// the concatenation clause needs every command alone; the other readings are sampled
+			subr[j] = ""
+			oExp = append(oExp, oAlone[j])
+			oSub = append(oSub, Outcome{})
+			continue
+		}
 		oExp = append(oExp, eval(expanded[j]))
 		if subr[j] != "" {
 			oSub = append(oSub, eval(subr[j]))
